@@ -661,7 +661,9 @@ def mapping_relations(res, rng, n, stats):
         err = np.abs(got['f'].to_numpy() - src['f'].to_numpy())
         if not (got.index.equals(src.index) and np.all(err <= 1e-9 * (1 + np.abs(src['f'].to_numpy())))):
             res.violation(WHAT_MAP, relation='identity', mesh=mja,
-                          max_error=float(np.nanmax(err)) if not np.all(np.isnan(err)) else 'nan')
+                          max_error=float(np.nanmax(err)) if not np.all(np.isnan(err)) else 'nan',
+                          observed=[float(x) for x in got['f'].to_numpy()], expected=[float(x) for x in src['f'].to_numpy()],
+                          subset_node_ids=[int(x) for x in src.index.get_level_values('node_id')])
         # (a') ... and onto a part of the same points (one node, the nodes of one element, one plane layer of nodes)
         for sub in ('one_node', 'one_element', 'plane_layer'):
             nodes = {'one_node': [rng.randrange(len(coords))], 'one_element': list(elements[rng.randrange(len(elements))]),
@@ -728,14 +730,62 @@ def surface_relations(res, rng, n, stats):
 
 # ------------------------------------------------------------------------------------------------ run
 
+def griddata_nan_on_hull(d):
+    """Known finding `mapping-nan-on-hull`: mapping a mesh onto its own nodes gives NaN (never a wrong number) at nodes
+    that lie on the boundary of the convex hull of the source nodes (within rounding): scipy's griddata finds no
+    containing simplex for such a point when the hull face is (nearly) degenerate."""
+    if not str(d.get('relation', '')).startswith('identity'):
+        return False
+    obs, want = d.get('observed'), d.get('expected')
+    if not isinstance(obs, list) or not isinstance(want, list) or len(obs) != len(want):
+        return False
+    obs, want = np.asarray(obs, float), np.asarray(want, float)
+    nan = np.isnan(obs)
+    if not nan.any() or not np.all(np.abs(obs[~nan] - want[~nan]) <= 1e-9 * (1 + np.abs(want[~nan]))):
+        return False
+    m = d['mesh']
+    pts = np.asarray(m['coords'], float)
+    if m.get('dims', 3) != 3:
+        pts = pts[:, :2]
+    from scipy.spatial import ConvexHull
+    try:
+        hull = ConvexHull(pts, qhull_options='QJ')
+    except Exception:
+        return False
+    diam = float(np.linalg.norm(pts.max(axis=0) - pts.min(axis=0)))
+    pos = {nd: i for i, nd in enumerate(m['node_ids'])}
+    sub = d.get('subset_node_ids')
+    # rows of the result are (element, node) rows in block order: recover the node of every NaN row
+    rows = [nd for el in m['elements'] for nd in [m['node_ids'][a] for a in el]]
+    if sub is not None and len(sub) != len(obs):
+        keep = set(sub)
+        rows = [nd for nd in rows if nd in keep]
+    elif sub is not None:
+        rows = list(sub)
+    if len(rows) != len(obs):
+        return False
+    for nd, isn in zip(rows, nan):
+        if not isn:
+            continue
+        x = pts[pos[nd]]
+        dist = np.min(np.abs(hull.equations[:, :-1] @ x + hull.equations[:, -1]))
+        if dist > 1e-7 * diam:
+            return False
+    return True
+
+
 def setup(res):
     _imports()
     res.classes['gradient_positional_ids'] = known_gradient_defect
+    res.classes['griddata_nan_on_hull'] = griddata_nan_on_hull
 
 
 def known_replay(res):
     def still(e):
         w = e['witness']
+        if e.get('class') == 'griddata_nan_on_hull':
+            ok, obs, want = map_subset_case(w)
+            return (not ok) and griddata_nan_on_hull(dict(w, observed=obs, expected=want))
         st, out = run_gradient('gradient', w['coords'], w['elements'], w['node_ids'], w['elem_ids'], w['values'])
         g = w['linear_field']['g']
         if st != 'ok':
